@@ -14,6 +14,8 @@ STATES = ZA + "::states"
 
 def run(rep):
     prog = rep.prog
+    from .c19 import key_coordinates_independent
+    key_coordinates_independent(rep)
     from .c15 import wire_group_membership
     wire_group_membership(rep)
     rep.rule("who-may-construct", "VerifiedBlindedMessage is built only in the accepting arm of SignatureRequestProof::verify_knowledge_of_opening")
